@@ -14,7 +14,7 @@ if not os.path.exists(wt):
     subprocess.run(["git", "-C", "/repo", "worktree", "add", "--detach", wt, "HEAD"], check=True, capture_output=True)
     subprocess.run(["git", "-C", wt, "rm", "-rq", "src/verif"], check=True, capture_output=True)
     subprocess.run(["git", "-C", wt, "commit", "-qm", "scratch: without src/verif"], check=True, capture_output=True)
-text = open(os.path.join(root, "tools", "mutation_prompt.md")).read()
+text = open(os.environ.get("MUT_PROMPT", os.path.join(root, "tools", "mutation_prompt.md"))).read()
 print(text)
 print(f"\nProperty {pid}: {prop['title']}\n\nStatement: {prop['statement']}\n\nQuantified over: {prop['quantifier']['text']}\n\n"
       f"Why the existing tests cannot settle it: {prop['why_tests_cant']}\n\n"
